@@ -675,17 +675,45 @@ func c13RunChild(run *Run) c13ChildResult {
 			res.raceMode = "norace:go build -race failed: " + msg
 		}
 	}
-	logPrefix := filepath.Join(work, fmt.Sprintf("race_C13_%d", os.Getpid()))
-	old, _ := filepath.Glob(logPrefix + ".*")
-	for _, f := range old {
-		os.Remove(f)
-	}
 	exe := bin
 	if res.raceMode != "race" {
 		exe = self
 	}
+	c13Exec(run, &res, exe, "all")
+	// the segmentPool scenario family (c13_seg.go) in child processes of its own, so that a VM corrupted by shared call
+	// frames (it can loop forever inside Go code) costs one short timeout: under -race, and once more in the ordinary
+	// binary, where sync.Pool behaves deterministically (under -race it drops a quarter of the Puts at random)
+	exes := []string{exe}
+	if res.raceMode == "race" {
+		exes = append(exes, self)
+	}
+	for i, e := range exes {
+		seg := c13ChildResult{stats: map[string]int{}}
+		c13Exec(run, &seg, e, "seg")
+		res.lines = append(res.lines, seg.lines...)
+		res.notes = append(res.notes, seg.notes...)
+		res.races = append(res.races, seg.races...)
+		pre := ""
+		if i == 1 {
+			pre = "norace_"
+		}
+		for k, v := range seg.stats {
+			res.stats[pre+k] = v
+		}
+	}
+	return res
+}
+
+// c13Exec runs one child (exe in run mode `mode`) and collects its request lines, notes, counters and race reports.
+func c13Exec(run *Run, res *c13ChildResult, exe, mode string) {
+	work := filepath.Join(verifRoot(), ".work")
+	logPrefix := filepath.Join(work, fmt.Sprintf("race_C13_%d_%s", os.Getpid(), mode))
+	old, _ := filepath.Glob(logPrefix + ".*")
+	for _, f := range old {
+		os.Remove(f)
+	}
 	cmd := exec.Command(exe)
-	cmd.Env = append(os.Environ(), "VERIF_C13_CHILD=1", "VERIF_C13_SEED="+strconv.FormatInt(run.Seed, 10), "VERIF_C13_TIER="+run.Tier,
+	cmd.Env = append(os.Environ(), "VERIF_C13_CHILD="+mode, "VERIF_C13_SEED="+strconv.FormatInt(run.Seed, 10), "VERIF_C13_TIER="+run.Tier,
 		"GOMAXPROCS=4", "GORACE=log_path="+logPrefix+" halt_on_error=0 exitcode=0 history_size=3")
 	var stdout, stderr bytes.Buffer
 	cmd.Stdout, cmd.Stderr = &stdout, &stderr
@@ -693,9 +721,16 @@ func c13RunChild(run *Run) c13ChildResult {
 	if run.Tier == "thorough" {
 		limit = 15 * time.Minute
 	}
+	if mode == "seg" {
+		limit = 60 * time.Second
+		if run.Tier == "thorough" {
+			limit = 6 * time.Minute
+		}
+	}
+	hung := false
 	if err := cmd.Start(); err != nil {
 		res.lines = append(res.lines, "X child-start => "+err.Error())
-		return res
+		return
 	}
 	waitc := make(chan error, 1)
 	go func() { waitc <- cmd.Wait() }()
@@ -707,8 +742,9 @@ func c13RunChild(run *Run) c13ChildResult {
 	case <-time.After(limit):
 		cmd.Process.Kill()
 		<-waitc
-		res.lines = append(res.lines, "X hang => the concurrent run did not finish within "+limit.String()+" (deadlock or lost wake-up)")
+		hung = true
 	}
+	lastP := ""
 	sc := bufio.NewScanner(&stdout)
 	sc.Buffer(make([]byte, 1<<20), 1<<26)
 	for sc.Scan() {
@@ -726,9 +762,14 @@ func c13RunChild(run *Run) c13ChildResult {
 				n, _ := strconv.Atoi(f[2])
 				res.stats[f[1]] = n
 			}
+		case strings.HasPrefix(l, "P "):
+			lastP = l[2:]
 		case l == "DONE":
 			res.completed = true
 		}
+	}
+	if hung {
+		res.lines = append(res.lines, "X hang => the "+mode+" child did not finish within "+limit.String()+" (deadlock, lost wake-up, or a VM looping on corrupted shared state); last scenario started: "+lastP)
 	}
 	if !res.completed && len(res.lines) > 0 && !strings.HasPrefix(res.lines[len(res.lines)-1], "X ") {
 		res.lines = append(res.lines, "X child-incomplete => "+c13Trunc(stderr.String(), 400))
@@ -744,7 +785,6 @@ func c13RunChild(run *Run) c13ChildResult {
 	}
 	all.WriteString(res.stderr)
 	res.races = c13ParseRaces(all.String())
-	return res
 }
 
 func c13Trunc(s string, n int) string {
